@@ -54,6 +54,10 @@ type Engine struct {
 	// controls any triggers. This field is for internal use in the struct only and should not be
 	// accessed elsewhere.
 	controlledTriggersBySite map[primitiveSite]map[annotation.FullTrigger]bool
+	// controlledTriggerOrder lists the controlled triggers of each site in the order of their
+	// registration, such that they are activated in a deterministic order (the iteration order of
+	// the sets in controlledTriggersBySite is random).
+	controlledTriggerOrder map[primitiveSite][]annotation.FullTrigger
 }
 
 // NewEngine constructs an inference engine that is ready to run inference.
@@ -307,6 +311,9 @@ func (e *Engine) buildPkgInferenceMap(triggers []annotation.FullTrigger) {
 	if e.controlledTriggersBySite == nil {
 		e.controlledTriggersBySite = map[primitiveSite]map[annotation.FullTrigger]bool{}
 	}
+	if e.controlledTriggerOrder == nil {
+		e.controlledTriggerOrder = map[primitiveSite][]annotation.FullTrigger{}
+	}
 	// alreadyNilable records the controlling sites that were determined to be nilable before this
 	// call (by an upstream package, an annotation, or an earlier call of this method). No further
 	// determination of such a site will happen, so nothing would ever activate the triggers it
@@ -324,6 +331,9 @@ func (e *Engine) buildPkgInferenceMap(triggers []annotation.FullTrigger) {
 		if !ok {
 			ts = map[annotation.FullTrigger]bool{}
 			e.controlledTriggersBySite[site] = ts
+		}
+		if !ts[trigger] {
+			e.controlledTriggerOrder[site] = append(e.controlledTriggerOrder[site], trigger)
 		}
 		ts[trigger] = true
 		if val, ok := e.inferredMap.Load(site); ok {
@@ -484,8 +494,8 @@ func (e *Engine) storeDeterminedAndActivateControlledTriggers(site primitiveSite
 // controlled by the site `site` if so. This method should be called whenever a site is determined
 // to be a new value.
 func (e *Engine) activateControlledTriggers(site primitiveSite, siteExplained ExplainedBool) {
-	if controlledTgs, ok := e.controlledTriggersBySite[site]; ok && siteExplained.Val() {
-		for tg := range controlledTgs {
+	if _, ok := e.controlledTriggersBySite[site]; ok && siteExplained.Val() {
+		for _, tg := range e.controlledTriggerOrder[site] {
 			e.buildFromSingleFullTrigger(tg)
 		}
 	}
